@@ -213,3 +213,29 @@ func VerifC20Scale(pat, bitsPer, factor, num, den int) {
 	zv.Assert(zv.Implies(bothFinite, zv.And(diff <= 1e-9, diff >= -1e-9)), "score changes under uniform scaling")
 	zv.Reach("scale")
 }
+
+// VerifC20Boundary: for patterns whose module count P is a power of two and the limit 1/2 every
+// quantity in the implementation is exact in float64 (counters < 2^k), so the threshold itself can
+// be decided: a run deviating by exactly the allowed individual variance is still within it.
+func VerifC20Boundary(pat, bitsPer int) {
+	p := verifPatterns[pat]
+	c := verifCounters(len(p), bitsPer)
+	P, T := verifSum(p), verifSum(c)
+	zv.Assume(T >= P)
+	v := PatternMatchVariance(c, p, 0.5)
+	allWithin := true
+	sumD := 0
+	for i := range p {
+		d := c[i]*P - p[i]*T
+		if d < 0 {
+			d = -d
+		}
+		sumD += d
+		allWithin = zv.And(allWithin, 2*d <= T) // d/P <= 0.5*T/P
+	}
+	ref := float64(sumD) / float64(P*T)
+	diff := v - ref
+	zv.Assert(zv.Implies(allWithin, zv.And(diff <= 1e-9, diff >= -1e-9)), "a run deviating by exactly the allowed variance must still be scored, not rejected")
+	zv.Assert(zv.Implies(!allWithin, math.IsInf(v, 1)), "a run beyond the allowed variance must score +Inf")
+	zv.Reach("boundary")
+}
